@@ -231,7 +231,7 @@ theorem deserialize_cellText (u : UC) (ty : Name) (v : Option Val) (txt : Text) 
 def upAttrs (u : UC) (attrs : List (Name × Name)) : List (Name × Name) := attrs.map fun a => (a.1, u.upper a.2)
 
 theorem attrNamesOk_upAttrs (u : UC) (attrs : List (Name × Name)) : attrNamesOk u (upAttrs u attrs) = attrNamesOk u attrs := by
-  simp only [attrNamesOk, upAttrs, List.map_map]; rfl
+  simp only [attrNamesOk, upAttrs, List.map_map, List.all_map]; rfl
 
 /-- the cells stored for a printed row are the canonical values of the row -/
 theorem specCells_row (u : UC) (c : ClassB) : ∀ (attrs : List (Name × Name)) (vals : List (Option Val)) (texts : List Text),
@@ -309,8 +309,9 @@ structure MM.Closed (u : UC) (m : MM) : Prop where
   rows : ∀ c ∈ m.classes, ∀ r ∈ c.rows, r.length = c.attrs.length
   /-- within a class no two attribute names coincide after upper-casing (`define_class` accepts no other class) -/
   attrNames : ∀ c ∈ m.classes, attrNamesOk u c.attrs = true
-  /-- no attribute name and no association key has the form `__x__`: such names collide with Python object internals
-      (open finding `build-builtin:dunder-identifier`) and are outside the model -/
+  /-- no attribute name and no association key has the form `__x__`: `define_class` / `define_association` raise
+      MetaModelException for such names (`_is_reserved`, since 7fb506e), so no metamodel has them; for attribute names this
+      is part of `attrNames` already, the field is kept for the users of the structure -/
   plainAttrs : ∀ c ∈ m.classes, ∀ a ∈ c.attrs, isDunder a.1 = false
   plainKeys : ∀ a ∈ m.assocs, ∀ k ∈ a.src.keys ++ a.tgt.keys, isDunder k = false
 
@@ -371,33 +372,7 @@ theorem buildOk_of_presents (u : UC) (m : MM) (hm : m.Closed u) (items : List It
     (stmts : List Stmt) (hp : Presents u m items S A) (hs : itemsStmts u items = some stmts) : BuildOk u stmts := by
   have hdecl := fun {c : ClassM} (hc : c ∈ m.classes) => declared_of_class u m items S A stmts hp hs hc
   have hcls := fun {b : ClassB} (hb : b ∈ newTables stmts) => class_of_declared u m items S A stmts hp hs hb
-  refine ⟨?_, ?_, ?_, ?_, ?_, ?_⟩
-  · -- no `__x__` identifier in an attribute position
-    unfold touchesInternals
-    rw [List.any_eq_false]
-    intro st hmem
-    rw [Bool.not_eq_true, List.any_eq_false]
-    intro n hn
-    rw [Bool.not_eq_true]
-    obtain ⟨it, hit, hst⟩ := mem_itemsStmts u items stmts hs _ hmem
-    have hof := hp.fromModel it hit
-    cases it with
-    | cls k a =>
-      simp only [Item.stmt, Option.some.injEq] at hst; subst hst
-      obtain ⟨c, hc, _, rfl⟩ := hof
-      simp only [Stmt.pyNames, List.map_map, List.mem_map, Function.comp] at hn
-      obtain ⟨a0, ha0, rfl⟩ := hn
-      exact hm.plainAttrs c hc a0 ha0
-    | assoc r s t =>
-      simp only [Item.stmt, Option.some.injEq] at hst; subst hst
-      obtain ⟨a, ha, _, rfl, rfl⟩ := hof
-      exact hm.plainKeys a ha n hn
-    | index _ _ _ => simp only [Item.stmt, Option.some.injEq] at hst; subst hst; simp [Stmt.pyNames] at hn
-    | inst k a v =>
-      simp only [Item.stmt] at hst
-      split at hst
-      · simp only [Option.some.injEq] at hst; subst hst; simp [Stmt.pyNames] at hn
-      · cases hst
+  refine ⟨?_, ?_, ?_, ?_, ?_⟩
   · -- distinct kinds
     unfold KindsDistinct
     rw [(proj_items u items stmts hs).1, hp.tables, List.map_map]
@@ -432,8 +407,13 @@ theorem buildOk_of_presents (u : UC) (m : MM) (hm : m.Closed u) (items : List It
       obtain ⟨rfl, rfl, rfl, rfl, rfl, rfl, rfl, rfl, rfl⟩ := hst
       obtain ⟨a, ha, _, rfl, rfl⟩ := hof
       obtain ⟨⟨c1, hc1, hk1⟩, hlen, c2, hc2, hk2, hkeys⟩ := hm.ends a ha
+      have hplain : a.src.keys.any isDunder = false := by
+        rw [List.any_eq_false]
+        intro k hk
+        rw [Bool.not_eq_true]
+        exact hm.plainKeys a ha k (by simp [hk])
       refine ⟨⟨classB0 u c1, hdecl hc1, by simp only [classB0, hk1, sameKind_refl]⟩,
-        ⟨classB0 u c2, hdecl hc2, by simp only [classB0, hk2, sameKind_refl]⟩, hlen, ?_⟩
+        ⟨classB0 u c2, hdecl hc2, by simp only [classB0, hk2, sameKind_refl]⟩, hplain, hlen, ?_⟩
       intro b hb hsame k hk
       obtain ⟨c, hc, rfl⟩ := hcls hb
       have : c = c2 := class_unique u m hm.distinct hc hc2 (by simpa only [classB0, hk2] using hsame)
